@@ -39,13 +39,50 @@ def known(prop):
     return out
 
 
+def benign_prompt(wt, rd, pid, p):
+    """A change that must NOT break the property: used to look for false alarms of the checks."""
+    return "\n".join([
+        "You are helping to evaluate a verification tool for a Go web framework (flamego) by producing a BENIGN change: a realistic "
+        "modification of the framework that does NOT violate the property below, although it changes the code the property's behaviour "
+        "passes through. The tool must stay silent on it; we are looking for false alarms. Work ONLY inside your own scratch git "
+        "worktree at %s (a checkout of the repository). Do not read or touch /verif or /repo. Do NOT use `git stash`.\n" % wt,
+        "Shell environment for every Go command: export GOFLAGS=-mod=mod GOPROXY=off GOSUMDB=off GOTOOLCHAIN=local (there is no "
+        "network). Run the existing tests with: cd %s && go test -vet=off -count=1 ./...   NOTE: five sub-tests of "
+        "TestParser/invalid_routes in internal/route (missing_leading_slash, missing_opening_bracket, no_surroundings_for_regex and "
+        "their parents) fail on the unchanged tree because of an error-message prefix; that is expected - every other test must still "
+        "pass after your change.\n" % wt,
+        "THE PROPERTY that must KEEP holding:\nTitle: %s\nStatement: %s\nQuantified over: %s\n" % (p["title"], p["statement"], p["quantifier"]["text"]),
+        "YOUR TASK: make a change of 5-40 lines to the framework's non-test source under %s (not *_test.go) in the code this property "
+        "depends on, of one or - better - a combination of these kinds: (a) a refactoring that restructures the implementation "
+        "(different data structure, loop turned into recursion or back, helper extracted or inlined, fields renamed or reordered, a "
+        "cache or fast path added that is correct); (b) a change of behaviour the property does NOT constrain: wording of error and "
+        "panic messages, log output, the text of default bodies (not-found page, recovery page), extra response headers the property "
+        "does not mention, defaults of options the property does not mention, the order in which independent checks are made at "
+        "registration time when only one can fail, a different-but-equally-valid choice where the property leaves a choice open; (c) "
+        "a performance change (pre-allocation, pooling done correctly, avoiding re-parsing) with identical semantics. Make it as "
+        "INVASIVE as you can while being certain the property still holds for every input, schedule and history it quantifies over - "
+        "re-read the statement clause by clause and argue for each clause why it is unaffected. Keep every exported identifier and "
+        "every unexported identifier used across packages (internal/route and inject are used by the root package) compiling with "
+        "its current signature. The existing test suite must still pass (apart from the five known failures), and the code must "
+        "compile.\n" % wt,
+        "When done, leave the change uncommitted in the worktree, save it with `git -C %s diff > %s/my_%s.patch`, and reply with: (a) "
+        "the diff, (b) for each clause of the property one sentence on why it still holds, (c) which observable behaviour outside the "
+        "property changed (if any)." % (wt, rd, pid),
+    ])
+
+
 def main():
     args = sys.argv[1:]
     rd = args.pop(0)
     angle = ""
-    if args and args[0] == "--angle":
-        args.pop(0)
-        angle = open(args.pop(0)).read().strip()
+    benign = False
+    while args and args[0].startswith("--"):
+        if args[0] == "--angle":
+            args.pop(0)
+            angle = open(args.pop(0)).read().strip()
+        elif args[0] == "--benign":
+            args.pop(0)
+            benign = True
     props = {}
     for ln in open(os.path.join(VERIF, "properties.jsonl")):
         p = json.loads(ln)
@@ -69,6 +106,10 @@ def main():
                  "TestParser/invalid_routes in internal/route (missing_leading_slash, missing_opening_bracket, "
                  "no_surroundings_for_regex and their parents) fail on the unchanged tree because of an error-message prefix; that is "
                  "expected - every other test must still pass after your change.\n" % wt)
+        if benign:
+            open(os.path.join(rd, "prompt_%s.txt" % pid), "w").write(benign_prompt(wt, rd, pid, p))
+            print("wrote", os.path.join(rd, "prompt_%s.txt" % pid), "(benign)")
+            continue
         t.append("THE PROPERTY the change must break:\nTitle: %s\nStatement: %s\nQuantified over: %s\n" % (p["title"], p["statement"], p["quantifier"]["text"]))
         if kn:
             t.append("ALREADY KNOWN changes for this property - %d earlier attempts, all of which the verification tool now detects. Do NOT "
